@@ -3,7 +3,7 @@ NOTES = ("All checks: python3 vt.py <id> --tier quick|thorough. Exploration runs
          "small C++ models next to the harness. Defects found so far were repaired by 'fix:' commits in /repo and are listed "
          "in known_findings.txt as fixed: entries. See DESIGN.md.")
 ENGINES = [
-    {"name": "vt-engine", "path": "/verif/engine", "serves_properties": ["C01", "C02", "C03", "C04", "C05", "C13"],
+    {"name": "vt-engine", "path": "/verif/engine", "serves_properties": ["C01", "C02", "C03", "C04", "C05", "C08", "C09", "C10", "C13"],
      "kind_free_text": "explicit-state BFS to a fixpoint over quiescent states of generated machines, executed on the real library (fresh instance + history replay per edge), with deviation-bounded enumeration of every callback decision inside a step; monitors and a reference semantics evaluated on every edge"},
     {"name": "vt-component", "path": "/verif/harness", "serves_properties": ["C07", "C18", "C19", "C20"],
      "kind_free_text": "explicit-state BFS / bounded-exhaustive enumeration over the concrete state of real library components, compared edge by edge with std containers or independent reference code"},
@@ -51,3 +51,15 @@ chk("C05", "model_checking",
 chk("C13", "model_checking",
     "All reachable quiescent states and all single-request edges: activeSubState/isResumable consistency for all ids, resume activates the reported sub-state, and inside every first-round guard callback isPendingEnter/Exit/Change for all ids against the enter/exit callbacks the approved round delivers. Known findings (nearest-ancestor-only answers) are listed in known_findings.txt with witness-specific keys.",
     ENGINE_NOTE, "explicit-state model checking, in-callback query snapshots vs outcome", "DESIGN.md 4 C13")
+
+chk("C08", "model_checking",
+    "All ordered pairs (source, destination) of the reachable quiescent states of every serializable program (automatic and manual, incl. inactive) are exercised on real instances: save must be const, load must reproduce active and resumable configuration with the right exit/enter callbacks and a balanced lifecycle, re-save must be bit-identical, buffers are exactly sized heap blocks under ASan/UBSan in the sanitizer builds.",
+    ENGINE_NOTE + " Pairs are capped at 500 (thorough 2500) states per program; the cap is reported.",
+    "explicit-state closure + exhaustive pairwise differential on the real implementation", "DESIGN.md 4 C08")
+chk("C09", "model_checking",
+    "Every explored processing edge (requests, batches, callback requests, all guard cancel/substitute deviations, manual initial activation) compares previousTransitions()/lastTransitionTo() with the environment's own record of approved and vetoed rounds, and replays the recorded list on an identically prepared replica, which must reach the same configuration without consulting guards.",
+    ENGINE_NOTE, "explicit-state model checking with authority/replica differential on every edge", "DESIGN.md 4 C09")
+chk("C10", "model_checking",
+    "Over the complete reachable state graph: every base edge re-executed in storage pre-filled with 0x00/0xFF/0xA5 at fresh addresses (scripted and built-in generator, two compilers) must give identical traces and keys; ordered pairs of histories interleaved on two instances; at every state a copy must continue like the original, not alias it, and leave it unaffected.",
+    ENGINE_NOTE + " Memory pre-fill patterns are three representatives, not all byte values.",
+    "explicit-state model checking with differential (fill / interleaving / copy) oracles", "DESIGN.md 4 C10")
